@@ -806,6 +806,9 @@ impl ConnH {
                 let status: u16 = status.parse().ok()?;
                 let eos = *eos == "1";
                 let s = self.slot(k)?;
+                if s.responder.is_none() && s.pushed_responder.is_none() {
+                    return Some(self.finish("nohandle".into()));
+                }
                 let resp = http::Response::builder().status(status).body(()).ok()?;
                 let r = match (s.responder.as_mut(), s.pushed_responder.as_mut()) {
                     (Some(r), _) => Some(r.send_response(resp, eos)),
